@@ -56,6 +56,9 @@ struct default_color_converter_impl<cmyka_t,rgba_t> {
                                     get_color(src,yellow_t()),
                                     get_color(src,black_t()))
             ,dst);
+        // the cmyk temporary has no alpha: the converter above set the destination opaque
+        get_color(dst,alpha_t()) =
+            channel_convert<typename color_element_type<P2,alpha_t>::type>(get_color(src,alpha_t()));
     }
 };
 
